@@ -149,7 +149,11 @@ ErrProgs == {"ENV", "EXPANDENV"}                 \* functions that must not exis
 StateProgs == {"SET", "GET", "GETS", "MUT"}
 \*   CAPV prints .Capabilities.KubeVersion.Version (not judged: "*"), CAPA prints .Capabilities.APIVersions.Has of an
 \*   API version that only an --api-versions option could add (the enumerated inputs carry no such option: "false")
-Progs    == {"LIT", "VAL", "FGET", "FGLOB", "FOUT", "DNS", "FAIL", "CAPV", "CAPA"} \cup IncProgs \cup ErrProgs \cup StateProgs
+\*   FCFG / FSEC print (.Files.Glob "conf/**").AsConfig / .AsSecrets where conf/a/x.txt and conf/b/x.txt share a base
+\*   name (which one wins is not judged: "*"; that it is always the same one is), FGLOB2 ranges over that Glob;
+\*   LOOK prints the size of `lookup` of an object that exists in every simulated cluster: a render without a cluster
+\*   connection sees nothing ("0"), whatever this process rendered before
+Progs    == {"LIT", "VAL", "FGET", "FGLOB", "FOUT", "DNS", "FAIL", "CAPV", "CAPA", "FCFG", "FSEC", "FGLOB2", "LOOK"} \cup IncProgs \cup ErrProgs \cup StateProgs
 
 FileOf(inp, p) == inp.files[CHOOSE j \in DOMAIN inp.files : inp.files[j].p = p]
 TplPaths(inp)  == {inp.files[j].p : j \in DOMAIN inp.files}
@@ -173,6 +177,9 @@ Payload(g, ch, w, dns) ==
     [] g = "FOUT"  -> "[]"
     [] g = "DNS"   -> IF dns THEN "*" ELSE "[]"       \* "*" = not judged (resolution was enabled)
     [] g = "CAPV"  -> "*"
+    [] g \in {"FCFG", "FSEC"} -> "*"
+    [] g = "FGLOB2" -> "conf/a/x.txt;conf/b/x.txt;"
+    [] g = "LOOK"  -> "0"
     [] g = "CAPA"  -> "false"
     [] OTHER       -> "?"
 
@@ -287,6 +294,7 @@ PossibleCrds(inp)  == {CrdOrder(inp, DepsAfterProcess(inp, o)) : o \in SetToSeqs
 
 KnownNotesShape(inp)  == Cardinality(NotesPassing(inp)) >= 2                                     \* L8-notes
 KnownCrdsShape(inp)   == inp.decl = "none" /\ Cardinality(Range(inp.subs) \cap Range(inp.crds)) >= 2  \* L21
+KnownFilesShape(inp)  == ProgsUsed(inp) \cap {"FCFG", "FSEC"} # {}                              \* L22: AsConfig / AsSecrets
 KnownSchemaShape(inp) == inp.schema \in {"rel", "file"}                                          \* L8-schema
 
 (* ----- C08 as predicates on (input, id sequences) -- not via F -------------- *)
